@@ -20,6 +20,10 @@ CHECKS = {
                 text='No oracle: two or three implementation runs share one symbolic structure and z3 proves their result vectors equal -- CTL vs CTLS on ~120 CTL formulas (n=3), LTL vs CTL vs CTLS on the common fragment (n=2), text vs object input, and 16 CTL / 7 LTL law schemas (complement, and/or/implies, A g = not E not g, fixpoint expansions) over formula pairs (f,g) as identities between result vectors.',
                 note='bounded: n<=3 (2 where the tableau runs); formula pairs from stated sets; catches an implementation and the oracle of C01-C03 being wrong in the same way',
                 tech='symbolic execution of the real source (verif.see) + SMT (z3 5.1) equivalence between implementation circuits'),
+    'C05': dict(cat='model_checking', ref='4/C05',
+                text='get_equivalent_restricted_formula and LNot run natively on ~1,100 enumerated formulas of the three logics; input and output formula are both translated by the reference semantics into circuits over symbolic models and z3 searches for a distinguishing model: every total Kripke structure with 3 states (state formulas) and every (k,l)-lasso with k<=5 (path formulas). Output alphabet and "no leading double negation" are checked on the trees.',
+                note='no model-checking code is involved; formula dimension is enumeration of programs; known finding D12 (LTL A-rooted formulas raise AttributeError) is excluded by construction and reported',
+                tech='SMT (z3 5.1) equivalence of two oracle circuits over symbolic models; rewriters run natively'),
     'C06': dict(cat='model_checking', ref='4/C06',
                 text='The exactness obligations of C01-C03 re-decided under varied presentation: all 6 orders of presenting/iterating 3 states, states renamed to strings/tuples/mixed types, atoms renamed, seeded global orders of formula sets (tie order of the closure sort; models the hash seed), and an unreachable extra state; the oracle is presentation-independent, so unsat for all is invariance.',
                 note='order model = one global order per run (per-site independent orders outside); PYTHONHASHSEED as a process setting is not what the solver decides -- it is modelled through the order of sets; sample of 4 (24 thorough) formula-set orders',
@@ -44,6 +48,18 @@ CHECKS = {
                 text='get_fair_states and CTL/CTLS.modelcheck(K,f,F) executed symbolically with symbolic fairness sets (|F|<=2) and compared by z3 with an Emerson-Lei fair-semantics oracle. Holds and is decided: get_fair_states is a subset of the fair states on every input; equality and modelcheck==fair semantics outside the classes of the four OPEN known findings D7-D10 (class predicates are conjoined negated to the violation query; each listed witness is re-found natively and printed as KNOWN-FINDING); F=[] and F=[S] equal the unconstrained answer; no exception and K unchanged also inside the classes.',
                 note='bounded: n<=3, |F|<=2, ~150 CTL formulas without constants; genuine defects D7-D10 are recorded, not repaired (reasons in known_findings.json / DESIGN.md section 5); /repo at fix commit 3d1a560',
                 tech=SOLVER),
+    'C16': dict(cat='model_checking', ref='4/C16',
+                text='The real unique table (BDDNode/BDDNonTerminalNode/BDDTerminalNode.__new__, find_isomorph, __reset__), apply/compute, __invert__, restrict and the OBDD wrappers run symbolically with the truth-table bits of two functions as unknowns: one merged run covers all ordered pairs (2 variables: all ops; 3 variables: all 65,536 pairs for construction, and for &,|,^ in thorough). z3 proves identical root <=> equal tables, OBDD.__eq__ agrees, and no two live non-terminals share (var, low, high).',
+                note='histories covered: construct two functions bottom-up, then operate, everything alive. Dropping references and garbage collection are NOT decided (CPython runtime); a native build/drop/gc stress run is a cross-check only and is reported as such',
+                tech=SOLVER.replace('an independent oracle circuit', 'truth-table oracle circuits')),
+    'C17': dict(cat='model_checking', ref='4/C17',
+                text='On the same symbolic runs z3 proves that f&g, f|g, f^g, ~f and f.restrict(v,b) denote the pointwise operation / cofactor on every assignment for every function (pair) of the bound, that every node reachable from a result is reduced and ordered, double negation returns the identical root, and variables() is exactly the support. RuntimeError clauses are examined natively on 6 cases.',
+                note='bounded: 2 variables all ops, 3 variables unary ops (binary in thorough), 4 variables unary in thorough; two orderings',
+                tech=SOLVER.replace('an independent oracle circuit', 'truth-table oracle circuits')),
+    'C18': dict(cat='model_checking', ref='4/C18',
+                text='Solver part: the real expression parser runs on a SYMBOLIC ast tree (depth<=2 over & | and or ~ not, n-ary and; leaves a b c 0 1 True False): the operator skeleton is forked (512 runs) and the four leaves are merged, so each run covers 4,096 trees; z3 proves the diagram denotes the expression on all assignments, is well-formed, nothing raises. Exploration part (natively, enumeration): lambda vs expression notation and keyword synonyms over enumerated texts x 2 argument orders; str() round trip for EVERY function of 3 variables x 6 orderings; 16 error cases.',
+                note='the round-trip, lambda-notation and error clauses are exploration (each native run pins its input), reported separately in evidence; /repo at fix commits 0348f4e, 6cbd413, df24c68',
+                tech=SOLVER + ' for the parser; exhaustive native enumeration for printing round trips'),
     'C19': dict(cat='model_checking', ref='4/C19',
                 text='On symbolic runs over heterogeneous presentations (states 0/\'1\'/(2,), operator-like state names, label sets polluted with ints, tuples, operator names, \'fair\' and the fresh names the code invents, formula atoms absent from K): z3 proves the result is a set of K\'s states equal to the reference, no exception guard is satisfiable, and a second call after emptying/polluting the first result is unchanged; identity walk shows the result is no object of K.',
                 note='bounded: n<=3; presentations are concrete, transitions/labels symbolic; RecursionError examined natively to depth 60 only',
